@@ -104,7 +104,7 @@ func (a ConstInt32) GetN() int {
 /* json
  * -------------------------------------------------------------------------- */
 func (obj ConstInt32) MarshalJSON() ([]byte, error) {
-  return json.Marshal(obj)
+  return json.Marshal(int32(obj))
 }
 /* math
  * -------------------------------------------------------------------------- */
